@@ -136,8 +136,10 @@ def applyMsg (ds : DS) (stake : Gov.StakeView) (w : MW) (m : Json) : Option (Exc
       let pool := (J.intOf m "pool").toNat; let purchase := (J.intOf m "purchase").toNat; let loss := J.intOf m "loss"
       let deposit := J.coinsOf m "deposit"
       let council := Gov.isCouncil ge w.c (J.strOf m "proposer")
+      -- ShieldClaimProposal.ValidateBasic: the loss is a valid coin amount
+      if loss < 0 then some (.error ⟨"basic:claim:invalid-loss"⟩)
       -- msg_server.go SubmitProposal: initial deposit, claim admission, handler dry run, proposal + deposit, lock
-      if Gen.Gov.submitRefused (Coins.amountOf deposit "uctk") (Coins.amountOf w.g.params.minInitial "uctk") council then some (.error ⟨"gov:insufficient-initial-deposit"⟩)
+      else if Gen.Gov.submitRefused (Coins.amountOf deposit "uctk") (Coins.amountOf w.g.params.minInitial "uctk") council then some (.error ⟨"gov:insufficient-initial-deposit"⟩)
       else match Shield.claimAdmissible w.sh ds.t holder pool purchase loss (Coins.amountOf deposit "uctk") with
       | some x => some (.error ⟨"claim:" ++ x⟩)
       | none =>
@@ -844,6 +846,35 @@ partial def loop (hIn : IO.FS.Stream) (ds : DS) : IO DS := do
       | "begin" => handleBegin ds j
       | "end" => handleEnd ds j
       | "view" => handleView ds j
+      | "xcmp" => do
+        -- C20: the original node and the node started from its export
+        let phase := J.strOf j "phase"
+        let mut ds := stat ds s!"sit.c20.{phase}"
+        ds := { ds with h := J.intOf j "h", stats := bump ds.stats "tx.continued.ok" ((J.intOf j "txs").toNat + 1) }
+        for d in J.arrOf j "diffs" do
+          let name := if phase == "reexport" then "export_import_export_same_state" else if phase == "imported" then "imported_state_same" else "continuation_same"
+          ds ← finding ds "monitor" "C20" name s!"{phase} at height {J.intOf j "h"} (exported after height {J.intOf j "cut"}, {J.strOf j "base"} history): {J.str d}"
+        pure ds
+      | "xstate" => do
+        -- the imported node's state: all block-boundary identities must hold on it
+        let ds1 : DS := { sys := ds.sys, hist := ds.hist, line := ds.line, h := J.intOf j "h", t := J.intOf j "t", stats := ds.stats, nFind := ds.nFind, nSample := ds.nSample, seen := ds.seen }
+        let ds1 := loadObs ds1 (J.get j "st")
+        -- the ghost ledgers of the oracle monitors start here
+        let ds2 ← runMonitors (stat ds1 "sit.c20.identities_checked") false true
+        pure { ds with stats := ds2.stats, nFind := ds2.nFind, seen := ds2.seen }
+      | "cmp" => do
+        -- C10: a second instance and a restarted instance were fed the same block
+        let mut ds := stat ds "sit.c10.blocks_compared"
+        ds := { ds with h := J.intOf j "h" }
+        ds := { ds with stats := bump ds.stats "tx.replayed.ok" (J.intOf j "txs").toNat }
+        if J.boolOf j "restarted" then ds := stat ds "sit.c10.restarts"
+        if J.strOf j "a" != J.strOf j "b" then
+          ds ← finding ds "monitor" "C10" "two_nodes_same_app_hash" s!"height {J.intOf j "h"}: node A {J.strOf j "a"}, node B {J.strOf j "b"}"
+        if J.strOf j "a" != J.strOf j "c" then
+          ds ← finding ds "monitor" "C10" "restarted_node_same_app_hash" s!"height {J.intOf j "h"}: node A {J.strOf j "a"}, restarted node {J.strOf j "c"} (restarted before this block: {J.boolOf j "restarted"})"
+        for d in J.arrOf j "diffs" do
+          ds ← finding ds "monitor" "C10" "same_transaction_results" s!"height {J.intOf j "h"}: {J.str d}"
+        pure ds
       | _ => pure ds
     loop hIn ds
 
